@@ -118,16 +118,16 @@ def inject(ov, injects, family):
     every private item of the file it is appended to).  File mtimes are kept (+1 s) so an
     unchanged tree is a no-op rebuild; a content hash over the crate sources and harness files
     forces a rebuild whenever anything differs from the last build, whatever the mtimes say."""
-    for rel, hfile, modname in injects:
+    for rel, hfile, modname, vis in injects:
         p = os.path.join(ov, rel)
         if not os.path.exists(p):
             raise Inconclusive(f'anchor-drift: {rel} does not exist in {REPO}')
         st = os.stat(p)
         with open(p, 'a') as f:
-            f.write(f'\n#[cfg(kani)] #[path = "{hfile}"] mod {modname};\n')
+            f.write(f'\n#[cfg(kani)] #[path = "{hfile}"] {vis + " " if vis else ""}mod {modname};\n')
         os.utime(p, (st.st_atime, st.st_mtime + 1))
     h = hashlib.sha256()
-    for rel, hfile, modname in sorted(injects):
+    for rel, hfile, modname, vis in sorted(injects):
         h.update(rel.encode())
         h.update(open(hfile, 'rb').read())
     hd = os.path.join(ov, '.verif_harness')
